@@ -495,6 +495,14 @@ func (fc *FuncCtx) callByContract(fr *Frame, st *State, callee *ssa.Function, c 
 	for k, v := range env.vars {
 		env2.vars[k] = v
 	}
+	if len(c.Callbacks) > 0 {
+		envPre := *env
+		envPre.cur, envPre.old = old, old
+		env2.fnsyms = map[string]*fnSym{}
+		for _, cb := range c.Callbacks {
+			env2.fnsyms[cb.Fn] = fc.callbackSym(fr, st, old, &envPre, c, cb, names, ptypes, args, pos, name)
+		}
+	}
 	for i := 0; i < nres; i++ {
 		rv := sig.Results().At(i)
 		v := fc.freshVal("ret."+sanitize(name), rv.Type(), st)
@@ -608,6 +616,11 @@ func (fc *FuncCtx) builtin(fr *Frame, st *State, bi *ssa.Builtin, call *ssa.Call
 		return Val{T: Ite(Ge(a, b), a, b)}
 	case "print", "println":
 		return Val{}
+	case "real":
+		// real part of a complex128 (opaque sort Cplx): an uninterpreted function of the value
+		if v := arg(0); v.T != nil && v.T.Sort == SCplx && floatSort == SReal {
+			return Val{T: App("cplx_re", SReal, v.T)}
+		}
 	}
 	unsupp("builtin %s", bi.Name())
 	return Val{}
@@ -834,4 +847,151 @@ func (fc *FuncCtx) specialExtern(fr *Frame, st *State, callee *ssa.Function, arg
 		return Val{T: App("ones8", SInt, args[0].T)}, true
 	}
 	return Val{}, false
+}
+
+// callbackSym gives meaning to fnres(fn, ...) in the ensures of a callee that has a `callback fn x.. : dom` clause.
+// st is the state after the callee's frame has been havocked (its ensures are not assumed yet): an arbitrary state
+// that differs from the pre-state `old` by the modifies set only, i.e. a state in which the callee may run fn.
+// When the argument is a function literal with a `modifies nothing` contract that assigns no captured variable:
+//   - proved: the literal's requires hold on the domain in every such state            (callback-pre)
+//   - proved: what its ensures say about a result in such a state holds in the pre-state too   (callback-stable)
+//   - assumed: forall arguments in the domain, the ensures hold in the pre-state for fnres(fn, arguments)
+//
+// Otherwise fnres is an unconstrained function.
+func (fc *FuncCtx) callbackSym(fr *Frame, st, old *State, envPre *Env, c *Contract, cb *Callback, names []string, ptypes []types.Type, args []Val, pos token.Pos, name string) *fnSym {
+	idx := -1
+	for i, n := range names {
+		if n == cb.Fn {
+			idx = i
+		}
+	}
+	if idx < 0 || idx >= len(args) || idx >= len(ptypes) || ptypes[idx] == nil {
+		panic(elabErr{fmt.Sprintf("%s:%d: callback %s: no such parameter of %s", c.File, cb.Dom.Line, cb.Fn, name)})
+	}
+	fsig, ok := ptypes[idx].Underlying().(*types.Signature)
+	if !ok || fsig.Results().Len() != 1 || fsig.Params().Len() != len(cb.Vars) {
+		panic(elabErr{fmt.Sprintf("%s:%d: callback %s: parameter must be a function with %d parameter(s) and one result", c.File, cb.Dom.Line, cb.Fn, len(cb.Vars))})
+	}
+	fs := &fnSym{typ: fsig.Results().At(0).Type(), ret: sortOf(fsig.Results().At(0).Type())}
+	var ptyps []types.Type
+	for i := 0; i < fsig.Params().Len(); i++ {
+		pt := fsig.Params().At(i).Type()
+		ptyps = append(ptyps, pt)
+		fs.args = append(fs.args, sortOf(pt))
+		if sortOf(pt) == nil {
+			unsupp("callback %s of %s: parameter type %s", cb.Fn, name, pt)
+		}
+	}
+	if fs.ret == nil {
+		unsupp("callback %s of %s: result type %s", cb.Fn, name, fs.typ)
+	}
+	fc.p.cbCount++
+	fs.name = fmt.Sprintf("cb.%s.%d", sanitize(name), fc.p.cbCount)
+	TB.funs[fs.name] = &FunDecl{Name: fs.name, Args: fs.args, Ret: fs.ret}
+	TB.funOrd = append(TB.funOrd, fs.name)
+	fv := args[idx].Fn
+	var cf *ssa.Function
+	var cc *Contract
+	if fv != nil {
+		cf = fv.Fn
+		cc = fc.p.contractOf(cf)
+	}
+	usable := cc != nil && cc.ModifiesSet && len(cc.Modifies) == 0 && len(cf.Params) == len(cb.Vars) && len(fv.Bindings) == len(cf.FreeVars)
+	if usable {
+		for _, b := range cf.Blocks {
+			for _, ins := range b.Instrs {
+				if sto, ok := ins.(*ssa.Store); ok {
+					if _, isFV := sto.Addr.(*ssa.FreeVar); isFV {
+						usable = false
+					}
+				}
+			}
+		}
+	}
+	if !usable {
+		fc.note("result of the function value passed to " + name + " is unconstrained (no function literal with a `modifies nothing` contract)")
+		return fs
+	}
+	fc.note("function literal " + funcKey(cf) + " passed to " + name + ": used through its own contract (callback clause of the assumed contract)")
+	// environments: the callee's parameters plus the callback arguments for the domain; the literal's own parameters
+	// and captured variables for its contract
+	domEnv := func(xs []*Term) *Env {
+		vars := map[string]SVal{}
+		for i, v := range cb.Vars {
+			vars[v] = SVal{T: xs[i], Typ: ptyps[i]}
+		}
+		return envPre.with(vars)
+	}
+	cloEnv := func(in *State, xs []*Term, res *Term) *Env {
+		e := &Env{p: fc.p, pkg: cf.Pkg.Pkg, vars: map[string]SVal{}, cur: in, old: in}
+		for i, prm := range cf.Params {
+			e.vars[prm.Name()] = SVal{T: xs[i], Typ: prm.Type()}
+		}
+		if res != nil {
+			rv := cf.Signature.Results().At(0)
+			sv := SVal{T: res, Typ: rv.Type()}
+			if rv.Name() != "" && rv.Name() != "_" {
+				e.vars[rv.Name()] = sv
+			}
+			e.vars["result"] = sv
+			e.vars["result0"] = sv
+		}
+		e.local = func(n string) (SVal, bool) {
+			for k, f := range cf.FreeVars {
+				if f.Name() != n {
+					continue
+				}
+				b := fv.Bindings[k]
+				if b.LV != nil {
+					if v := fc.load(fr, in, b.LV, token.NoPos); v.T != nil {
+						return SVal{T: v.T, Typ: b.LV.Typ}, true
+					}
+				}
+				if b.T != nil {
+					return SVal{T: b.T, Typ: f.Type()}, true
+				}
+			}
+			return SVal{}, false
+		}
+		return e
+	}
+	elabAll := func(e *Env, cls []*Clause) *Term {
+		out := True
+		for _, cl := range cls {
+			t, err := e.ElabBool(cl.Expr)
+			if err != nil {
+				panic(elabErr{fmt.Sprintf("%s:%d: contract of %s at its use as callback of %s (%s): %v", cc.File, cl.Line, funcKey(cf), name, fc.p.pos(pos), err)})
+			}
+			out = And(out, t)
+		}
+		return out
+	}
+	elabDom := func(xs []*Term) *Term {
+		t, err := domEnv(xs).ElabBool(cb.Dom.Expr)
+		if err != nil {
+			panic(elabErr{fmt.Sprintf("%s:%d: callback domain of %s at %s: %v", c.File, cb.Dom.Line, name, fc.p.pos(pos), err)})
+		}
+		return t
+	}
+	// 1, 2: obligations over arbitrary arguments in an arbitrary intermediate state
+	mid := st.clone()
+	var xs []*Term
+	for i, v := range cb.Vars {
+		xs = append(xs, Fresh("cb."+v, fs.args[i]))
+	}
+	r := Fresh("cb.res", fs.ret)
+	dom := elabDom(xs)
+	site := name + ":" + cb.Fn
+	fc.addSplit(fr, mid, "callback-pre", site, Implies(dom, elabAll(cloEnv(mid, xs, nil), cc.Requires)), pos, "precondition of the function literal on the arguments and in the states the callee may call it with")
+	fc.addSplit(fr, mid, "callback-stable", site,
+		Implies(And(dom, elabAll(cloEnv(mid, xs, nil), cc.Requires), elabAll(cloEnv(mid, xs, r), cc.Ensures)), elabAll(cloEnv(old, xs, r), cc.Ensures)),
+		pos, "the postcondition of the function literal does not depend on what the callee modifies")
+	// 3: the literal's postcondition, in the pre-state, for every argument tuple of the domain
+	var bs []*Term
+	for i, v := range cb.Vars {
+		bs = append(bs, BVar("cb$"+v, fs.args[i]))
+	}
+	app := App(fs.name, fs.ret, bs...)
+	st.assume(Forall(bs, Implies(elabDom(bs), elabAll(cloEnv(old, bs, app), cc.Ensures)), []*Term{app}))
+	return fs
 }
